@@ -38,8 +38,10 @@ def make_overlay(patch_path, name):
     return od, ''
 
 
-def run_check(prop, overlay_dir):
+def run_check(prop, overlay_dir, focus=None):
     env = dict(os.environ)
+    if focus:
+        env['XV_FOCUS_RULE'] = focus
     ev = tempfile.mkdtemp(prefix='xv-ev-', dir=CACHE)
     env['XV_EVIDENCE_DIR'] = ev
     r = subprocess.run([os.path.join(VERIF, 'check'), prop, '--tier', 'quick', '--overlay', overlay_dir], capture_output=True, text=True, env=env, cwd=VERIF)
@@ -56,7 +58,7 @@ def run_one(m):
     od, err = make_overlay(patch, m['name'])
     if od is None:
         return {'name': m['name'], 'status': 'stale', 'detail': 'patch no longer applies: ' + err[:200]}
-    rc, viol, out = run_check(m['property'], od)
+    rc, viol, out = run_check(m['property'], od, m.get('expect_rule'))
     shutil.rmtree(od, ignore_errors=True)
     hits = [v for v in viol if v['rule'] == m['expect_rule'] and m.get('expect_site', '') in v['site']]
     if rc == 1 and hits:
